@@ -18,7 +18,7 @@ RULE = ("cases = (seeded shadowing-heavy program, occurrence index); every def/u
         "clicked occurrence, number of occurrences bucket, whether another binder shares the name, offset inside name)")
 ASSUME = ["the generator's binder ids follow conventional lexical scoping (same model as gm/ref/interp.py)",
           "the LSP half of the property (textDocument/rename returns the same edits) is decided by C29's edit check"]
-BATCH = 2
+BATCH = 1
 FLOOR = {"quick": 30, "thorough": 60}
 BUDGET = {"quick": 45, "thorough": 840}
 FRESH = "verif_fresh_name"
@@ -72,8 +72,8 @@ def run_case(case, sc):
             kinds[bid] = kind
     rng = random.Random(case["seed"])
     occs = list(p.binders)
-    if len(occs) > 40:
-        occs = rng.sample(occs, 40)
+    if len(occs) > 12:
+        occs = rng.sample(occs, 12)
     keys = set()
     base_run = None
     for bid, name, st, en, role, kind in occs:
